@@ -2,6 +2,8 @@ package props
 
 import (
 	"fmt"
+	"os"
+	"runtime/debug"
 
 	"github.com/netflix/rend/common"
 	"github.com/netflix/rend/handlers"
@@ -43,6 +45,9 @@ func hcall(h handlers.Handler, op wire.Op, spare bool) (res HRes) {
 	defer func() {
 		if r := recover(); r != nil {
 			res.Panic = fmt.Sprint(r)
+			if os.Getenv("VERIF_PANIC_STACK") != "" {
+				res.Panic += "\n" + string(debug.Stack())
+			}
 		}
 		res.Done = true
 	}()
